@@ -1135,7 +1135,14 @@ func nodeRun(c *verifeng.Chooser, f *nodeFix, env *verifhfs.Env, mode nodeMode, 
 		if steps%16 == 0 {
 			verifbubble.MaybeGC()
 		}
-		if steps > 800 {
+		if steps > 800 || (steps > 300 && !mode.converge) {
+			if !mode.converge {
+				// progress is not this mode's subject (and the client may
+				// depend on the random order of a map for it, which the
+				// determinised runtime fixes)
+				c.Note("300 steps without reaching the end of the script")
+				break
+			}
 			c.Fail(mode.name, mode.name+":no-progress", "800 steps without reaching the end of the script")
 			return
 		}
